@@ -223,8 +223,10 @@ def job_window_and_rfft(P, taps, W):
 
 # ------------------------------------------------------------------ concrete oracle
 def ref_pfb(x, w, P, taps):
+    """the definition, for the spectra a call returns: all but the last window's worth of starting positions,
+    (W - 1) * taps of them for W = len(x) / (taps * P) windows (the remainder is produced by the next cached call)"""
     x = np.asarray(x)
-    nspec = len(x) // P - taps + 1
+    nspec = (len(x) // (taps * P) - 1) * taps
     out = np.zeros((max(nspec, 0), P), dtype=complex)
     for n in range(nspec):
         seg = np.zeros(P, dtype=complex)
